@@ -269,34 +269,38 @@ def run(tier, seed):
             # tested must be loaded after those stores (no store to curr_file between the load and the DEFERRED store except the deferred one)
         # ---- R5: leading '/' stripping ---------------------------------------------------------------------------------
         rid = rep.rule("R5", "file_full_path appends header->path / header->filename only from a position whose first byte is not '/'", 2)
-        fp = rep.need(rid, mod.fn("file_full_path"), "function file_full_path")
-        if fp:
-            M = Matcher(fp)
-            F = ctx.facts(fp)
-            n = 0
-            for c in fp.calls("strcat"):
-                src = c.ops[1]
-                leaves = F.sources(src)
-                from_hdr = None
-                for s, fs in leaves:
-                    for fld in ("path", "filename"):
-                        if M.match(("load", ("field", HDR, fld, ("param", 0))), s, {}) is not None:
-                            from_hdr = fld
-                        e = M.match(("gep", ("bind", "b"), [ANY]), s, {})
-                if from_hdr is None and M.match(("gep", ("phi",), [1]), src, {}) is None:
-                    # not header-derived (extract_path, "/")
-                    dsrc = fp.defn(M.strip(src, ("bitcast",)))
-                    if not (dsrc is not None and getattr(dsrc, "op", "") == "phi"):
-                        continue
-                n += 1
-                f, _ = M.find_fact(("ne", ("load", ("inst", M.strip(src, ("bitcast",))[1])), ord("/")), F.at_inst(c))
-                rep.check(rid, f is not None, "strcat(result, p) with *p != '/' (header->%s)" % from_hdr, c.where(),
-                          "facts: %s" % sorted(describe_fact(fp, x) for x in F.at_inst(c))[:8] if f is None else describe_fact(fp, f), function=fp.cname, obj="strcat-%s" % from_hdr)
-            rep.check(rid, n == 2, "both header strings are appended through the skip loop", fp.file, "%d header-derived strcat sites" % n, function=fp.cname, obj="sites")
-            # no other use of header->path/filename as a copy source
-            for c in fp.insts():
-                if c.op == "call" and mod.callee_cname(c) in ("strcpy", "sprintf", "memcpy", "llvm.memcpy.p0i8.p0i8.i64", "stpcpy", "strncat", "strncpy"):
-                    rep.violation(rid, "no other copy into the output path", c.where(), mod.callee_cname(c), function=fp.cname, obj="other-copy")
+        # decided on the inlined view of src/extract.c, so that the skip loop may live in file_full_path itself or in a helper it calls
+        xmod = ctx.inlined("src_extract")
+        COPIES = {"strcat", "strcpy", "strncat", "strncpy", "stpcpy", "sprintf", "snprintf", "memcpy", "memmove", "llvm.memcpy.p0i8.p0i8.i64", "llvm.memmove.p0i8.p0i8.i64"}
+        n = 0
+        hosts = set()
+        for fn in xmod.defined():
+            sites = [c for c in fn.insts() if c.op == "call" and xmod.callee_cname(c) in COPIES and any(l.get("fn") == "file_full_path" for l in (c.loc or []))]
+            if fn.cname == "file_full_path":
+                sites = [c for c in fn.insts() if c.op == "call" and xmod.callee_cname(c) in COPIES]
+            if not sites:
+                continue
+            hosts.add(fn.cname)
+            M = Matcher(fn)
+            F = ctx.facts(fn)
+            for c in sites:
+                for k, src in enumerate(c.ops[1:], 1):
+                    from_hdr = None
+                    for sv, fs in F.sources(src):
+                        for fld in ("path", "filename"):
+                            if M.match(("load", ("field", HDR, fld, ANY)), sv, {}) is not None:
+                                from_hdr = fld
+                    if from_hdr is None:
+                        continue        # extract_path, "/" and the like
+                    n += 1
+                    sp = M.strip(src, ("bitcast",))
+                    f = None
+                    if xmod.callee_cname(c) in ("strcat", "strcpy", "stpcpy") and sp[0] == "v":
+                        f, _ = M.find_fact(("ne", ("load", ("inst", sp[1])), ord("/")), F.at_inst(c))
+                    rep.check(rid, f is not None, "%s: %s(result, p) with *p != '/' (header->%s)" % (fn.cname, xmod.callee_cname(c), from_hdr), c.where(),
+                              "facts: %s" % sorted(describe_fact(fn, x) for x in F.at_inst(c))[:8] if f is None else describe_fact(fn, f), function="file_full_path", obj="copy-%s" % from_hdr)
+        rep.check(rid, n >= 2 and n % 2 == 0, "both header strings are appended after the skip (in every inlined copy of file_full_path)", "src/extract.c",
+                  "%d header-derived copy sites in %s" % (n, sorted(hosts)), function="file_full_path", obj="sites")
 
         # ---- R6: directory metadata -----------------------------------------------------------------------------------------
         rid = rep.rule("R6", "a directory is queued for (or given) metadata only after lha_arch_mkdir succeeded for it in this run", 2)
